@@ -2,7 +2,7 @@
 from pyvc.engine import Contract, contract
 from pyvc.worlds import Call
 from pyvc import spec as S
-from pyvc.values import And, Or, Not, Implies, Iff, compare, ite, binop
+from pyvc.values import And, Or, Not, Implies, Iff, compare, ite, binop, SObj
 from contracts.c04_codec import INT_TYPES, OD, rng
 
 PV = "canopen.pdo.base:PdoVariable"
@@ -116,3 +116,85 @@ class PdoDataSize(Contract):
 
     ensures = {"ceil": lambda s: And(s.returned, compare("==", S.blen(s.w.get(s.pre["pm"], "data")),
                                                          binop(">>", binop("+", s.pre["total"], 7), 3)))}
+
+
+@contract
+class PdoNeighbours(Contract):
+    """two variables mapped into one frame at disjoint bit fields: a value written to one is read back unchanged and
+    the other reads exactly what it read before (the "consequently" clause, as a two-call history on the real code)"""
+    target = "canopen.pdo.base:PdoVariable.set_data"
+    id = "PdoNeighbours"
+    functions = ("canopen.pdo.base:PdoVariable.get_data",)
+    props = ("C05", "C15")
+    cases = {"U8/U16": ("UNSIGNED8", "UNSIGNED16"), "I16/I8": ("INTEGER16", "INTEGER8"), "BOOL/I32": ("BOOLEAN", "INTEGER32"),
+             "U24/U8": ("UNSIGNED24", "UNSIGNED8"), "I8/I8": ("INTEGER8", "INTEGER8")}
+
+    def setup(self, w, case):
+        t1, t2 = FIELD_TYPES[case[0]], FIELD_TYPES[case[1]]
+        n = w.choose(w.int("N", 1, 8), range(1, 9))
+        frame = w.bytes("frame", n, mutable=True)
+        pm = w.obj("env.stubs:MapStub", data=frame, name="map")
+
+        def mk(tag, t):
+            code, bits, signed = t
+            od = w.obj(OD, data_type=code, min=None, max=None, name=tag, index=0x2000, subindex=0, parent=None)
+            off = w.int(tag + "_offset", 0, 63)
+            ln = w.int(tag + "_length", 1, 8) if bits == 8 else bits
+            w.assume(compare("<=", binop("+", off, ln), 8 * n))
+            return w.obj(PV, od=od, pdo_parent=pm, offset=off, length=ln, name=tag, index=0x2000, subindex=0), off, ln
+        v1, o1, l1 = mk("a", t1)
+        v2, o2, l2 = mk("b", t2)
+        # disjoint fields, as PdoMap.add_variable lays them out (running sum of lengths)
+        w.assume(Or(compare("<=", binop("+", o1, l1), o2), compare("<=", binop("+", o2, l2), o1)))
+        code, bits, signed = t1
+        if signed:
+            val = w.int("v", -(1 << 63), (1 << 63) - 1)
+            half = binop("<<", 1, binop("-", l1, 1))
+            w.assume(And(compare(">=", val, binop("-", 0, half)), compare("<", val, half)))
+        else:
+            val = w.int("v", 0, (1 << 64) - 1)
+            w.assume(compare("<", val, binop("<<", 1, l1)))
+        data = w.bytes_of(S.le_bytes_items(val, bits // 8))
+        w.pre.update(data=data)
+        return Call(("func", "env.drivers", "pdo_set_then_get"), [v1, v2, data])
+
+    ensures = {"own-value-read-back_neighbour-undisturbed": lambda s: And(
+        s.returned, isinstance(s.ret, tuple) and len(s.ret) == 3, S.eq(s.ret[0], s.ret[1]) if s.returned else False,
+        S.eq(s.ret[2], s.pre["data"]) if s.returned else False)}
+
+
+@contract
+class PdoAddVariable(Contract):
+    """add_variable: the new variable starts where the previous ones end (offset = running sum of lengths), the total
+    length accumulates, the frame is ceil(total/8) bytes; a custom bit length is honoured"""
+    target = "canopen.pdo.base:PdoMap.add_variable"
+    functions = ("canopen.pdo.base:PdoMap._get_variable", "canopen.pdo.base:PdoMap._update_data_size",
+                 "canopen.pdo.base:PdoVariable.__init__")
+    props = ("C05",)
+    cases = {"own-length": False, "custom-length": True}
+
+    def setup(self, w, case):
+        total = w.int("total", 0, 56)
+        existing = w.plist("map", elem=lambda i: w.obj(PV, od=None, pdo_parent=None, offset=0, length=8, name="x", index=1, subindex=0))
+        node = w.obj("env.pdodev:PdoNode", network=None, node=w.obj("env.pdodev:NodeOfPdo", object_dictionary=w.obj("env.pdodev:AnyOd")))
+        pm = w.obj("canopen.pdo.base:PdoMap", pdo_node=node, map=existing, length=total, data=w.bytearray([]))
+        index = w.int("index", 1, 0xFFFF)
+        ln = w.int("length", 1, 8) if case else None
+        w.pre.update(pm=pm, total=total, ln=ln, map0=w.snap(existing))
+        return Call(("method", pm, "add_variable"), [index, 0, ln])
+
+    @staticmethod
+    def ok(s):
+        p = s.pre
+        g = s.w.get
+        pm = p["pm"]
+        if not s.returned or not isinstance(s.ret, SObj):
+            return False
+        ok_, new = S.appended(g(pm, "map"), p["map0"], 1)
+        ln = p["ln"] if p["ln"] is not None else 8
+        tot = binop("+", p["total"], ln)
+        return And(ok_ and new[0] is s.ret, S.eq(s.ret.fields["offset"], p["total"]), S.eq(s.ret.fields["length"], ln),
+                   S.eq(g(pm, "length"), tot), S.eq(S.blen(g(pm, "data")), binop(">>", binop("+", tot, 7), 3)),
+                   s.ret.fields["pdo_parent"] is pm)
+
+    ensures = {"offset-is-running-sum": lambda s: PdoAddVariable.ok(s)}
